@@ -70,21 +70,31 @@ def gen_job(jobs):
     return out
 
 
-def run_gen(o: Outcome, universe: str, parts: int, known, tags_file: str, pages_file: str | None = None,
-            inv: str = "GenInv") -> list:
-    jobs = [(universe, p, parts, sorted(known), tags_file, pages_file, inv) for p in range(parts)]
+def run_gens(o: Outcome, plan: list, known, tags_file: str, pages_file: str | None = None) -> dict:
+    """plan: [(universe, parts, invariant)]; all TLC processes of all universes share one pool."""
+    jobs = []
+    for universe, parts, inv in plan:
+        jobs += [(universe, p, parts, sorted(known), tags_file, pages_file if universe == "FILE" else None, inv)
+                 for p in range(parts)]
+    jobs.sort(key=lambda j: 0 if j[0] in ("GQ", "GT") else 1)
     res = pmap(gen_job, jobs, chunk=1)
-    cases = []
-    tot = common.TLCResult("", 0, 0.0)
+    cases = {u: [] for u, _, _ in plan}
+    tot = {u: common.TLCResult("", 0, 0.0) for u, _, _ in plan}
     for universe, part, distinct, generated, wall, cs in res:
-        tot.distinct += distinct
-        tot.generated += generated
-        tot.wall = max(tot.wall, wall)
+        t = tot[universe]
+        t.distinct += distinct
+        t.generated += generated
+        t.wall = max(t.wall, wall)
         for c in cs:
             c["u"] = universe
-        cases += cs
-    o.add_tlc(f"Gen_ParserStruct[{universe}] law+cases x{parts}", tot)
+        cases[universe] += cs
+    for universe, parts, inv in plan:
+        o.add_tlc(f"Gen_ParserStruct[{universe}] law+cases x{parts}", tot[universe])
     return cases
+
+
+def run_gen(o, universe, parts, known, tags_file, pages_file=None, inv="GenInv"):
+    return run_gens(o, [(universe, parts, inv)], known, tags_file, pages_file)[universe]
 
 
 # ---------------------------------------------------------------------------
@@ -133,7 +143,7 @@ def validate(o: Outcome, cases: list, known, tags_file: str, origin: str, chunk_
         o.evaluations += 1
         t = real[i]
         if "exception" in t:
-            o.violation({"origin": origin, "text": texts[i][1], "page": c["page"]},
+            o.violation({"origin": origin, "universe": c.get("u"), "text": texts[i][1], "page": c["page"]},
                         f"parse({texts[i][1]!r}) raised {t['exception']}", cls="exception")
             continue
         items.append((i, c["page"], t))
@@ -155,7 +165,7 @@ def validate(o: Outcome, cases: list, known, tags_file: str, origin: str, chunk_
         o.shape(ptree2.shape(real[i]))
         if i in bad:
             b = bad[i]
-            case = {"origin": origin, "universe": c.get("u"), "text": text,
+            case = {"origin": "V" if c.get("u") == "FILE" else "G", "universe": c.get("u"), "text": text,
                     "expected": ptree2.show(b["expected"]), "got": ptree2.show(real[i]), "page": c["page"]}
             why = f"parse({text!r}) does not have the written structure"
             o.classify(case, why, sorted(b["devs"]), cls=classify(b["expected"], real[i], c))
@@ -206,7 +216,8 @@ def rinline(rng, depth, cx=frozenset()):
                     opts.append("I")
                 if "B" not in cx:
                     opts.append("B")
-                opts.append("H")
+                if "E" not in cx:
+                    opts.append("H")
         k = rng.choice(opts)
         if k == "t":
             it = T(rng.choice(WORDS), "SP", rng.choice(WORDS)) if rng.random() < 0.4 else T(rng.choice(WORDS))
@@ -220,10 +231,13 @@ def rinline(rng, depth, cx=frozenset()):
             it = {"k": "L", "args": args, "trail": []}
         elif k == "E":
             it = {"k": "E", "url": ["http", ":", "/", "/", "e.x", "/", "p"], "text": rinline(rng, depth - 1, cx | {"E"}) if rng.random() < 0.8 else []}
-        elif k == "I":
-            it = {"k": "I", "c": rinline(rng, depth - 1, cx | {"I"})}
-        elif k == "B":
-            it = {"k": "B", "c": rinline(rng, depth - 1, cx | {"B"})}
+        elif k in ("I", "B"):
+            c = rinline(rng, depth - 1, cx | {k})
+            if c[0]["k"] in ("I", "B"):
+                c = merge_text([T(rng.choice(WORDS), "SP")] + c)
+            if c[-1]["k"] in ("I", "B"):
+                c = merge_text(c + [T("SP", rng.choice(WORDS))])
+            it = {"k": k, "c": c}
         else:
             it = {"k": "H", "tag": rng.choice(["span", "b", "small", "sup", "code"]), "attrs": rattrs(rng, HNAMES),
                   "c": rinline(rng, depth - 1, cx | {"H"}), "void": False}
@@ -307,41 +321,37 @@ def run(tier: str) -> int:
     with Scratch("c03m-") as d:
         tags_file = str(d / "tags.json")
         Path(tags_file).write_text(json.dumps(tag_table()))
-        # M with coverage: the CALL universe in one process (per-branch labels come from the cases themselves)
-        allcases = []
-        plan = [("EL", 4), ("CALL", 4), ("NEST", 2), ("GT" if thorough else "GQ", 16)]
-        for universe, parts in plan:
-            cs = run_gen(o, universe, parts, known, tags_file)
-            allcases.append((universe, cs))
-        cov = {}
-        for universe, cs in allcases:
-            for c in cs:
-                for label in c["cov"]:
-                    cov[label] = cov.get(label, 0) + 1
-        o.extra["action_coverage"] = dict(sorted(cov.items()))
-        # Demo: TLC itself finds the counterexample with the deviations on
-        demo = tlc("Gen_ParserStruct", "Demo_ParserStruct_asis.cfg", workers=1, check=False, env={"TAGS_FILE": tags_file})
-        o.extra["demo_asis_counterexample"] = bool(demo.invariant_violated)
-        if not demo.invariant_violated:
-            raise common.TLCError("Demo_ParserStruct_asis lost its counterexample")
-        for universe, cs in allcases:
-            validate(o, cs, known, tags_file, "G:" + universe)
-            if cs:
-                mid = cs[len(cs) // 2]
-                o.sample({"universe": universe, "text": ptree2.concretise(mid["text"])})
-        o.exhaustive = True
-        # V
         rng = random.Random(common.seed() * 7919 + 3)
         pages = [rpage(rng, thorough) for _ in range(6000 if thorough else 800)]
         pf = d / "pages.json"
         pf.write_text(json.dumps(pages))
-        vcases = run_gen(o, "FILE", 16 if thorough else 8, known, tags_file, str(pf), inv="GenInvF")
-        nolaw = [c for c in vcases if not c["law"]]
+        grid = "GT" if thorough else "GQ"
+        plan = [(grid, 32 if thorough else 16, "GenInv"), ("EL", 3, "GenInv"), ("CALL", 3, "GenInv"),
+                ("NEST", 3, "GenInv"), ("FILE", 8 if thorough else 3, "GenInvF")]
+        bycase = run_gens(o, plan, known, tags_file, str(pf))
+        nolaw = [c for c in bycase["FILE"] if not c["law"]]
         if nolaw:
-            raise common.TLCError(f"{len(nolaw)} random page(s) violate the model's own law, e.g. {ptree2.concretise(nolaw[0]['text'])!r}")
-        validate(o, vcases, known, tags_file, "V")
-        if vcases:
-            o.sample({"random_page": ptree2.concretise(vcases[0]["text"])})
+            raise common.TLCError(f"{len(nolaw)} random page(s) violate the model's own law, e.g. "
+                                  f"{ptree2.concretise(nolaw[0]['text'])!r}")
+        cov = {}
+        for cs in bycase.values():
+            for c in cs:
+                for label in c["cov"]:
+                    cov[label] = cov.get(label, 0) + 1
+        o.extra["action_coverage"] = dict(sorted(cov.items()))
+        o.extra["cases_per_universe"] = {u: len(cs) for u, cs in bycase.items()}
+        # Demo: TLC itself finds the counterexample with the deviations switched on
+        demo = tlc("Gen_ParserStruct", "Demo_ParserStruct_asis.cfg", workers=1, check=False, env={"TAGS_FILE": tags_file})
+        o.add_tlc("Demo_ParserStruct_asis (counterexample expected)", demo)
+        o.extra["demo_asis_counterexample"] = bool(demo.invariant_violated)
+        if not demo.invariant_violated:
+            raise common.TLCError("Demo_ParserStruct_asis lost its counterexample")
+        allcases = [c for u, _, _ in plan for c in bycase[u]]
+        validate(o, allcases, known, tags_file, "G/V")
+        o.exhaustive = True
+        for u, _, _ in plan:
+            if bycase[u]:
+                o.sample({"universe": u, "text": ptree2.concretise(bycase[u][len(bycase[u]) // 2]["text"])})
     return o.finish()
 
 
